@@ -9,8 +9,10 @@ import (
 	"time"
 
 	cfgtypes "github.com/agglayer/aggkit/config/types"
+	dbtypes "github.com/agglayer/aggkit/db/types"
 	"github.com/agglayer/aggkit/l1infotreesync"
 	"github.com/agglayer/aggkit/reorgdetector"
+	aggkitsync "github.com/agglayer/aggkit/sync"
 	aggkittypes "github.com/agglayer/aggkit/types"
 	"github.com/ethereum/go-ethereum/common"
 	"github.com/ethereum/go-ethereum/core/types"
@@ -37,7 +39,13 @@ var (
 	c06GER    = common.HexToAddress("0x6666666666666666666666666666666666666666")
 	c06RM     = common.HexToAddress("0x7777777777777777777777777777777777777777")
 	c06InfoV1 = crypto.Keccak256Hash([]byte("UpdateL1InfoTree(bytes32,bytes32)"))
+	// a second syncer (generic EVM driver + downloader with a recording store) shares the reorg detector: it watches
+	// another contract, so the two subscribers track different, interleaving sets of blocks
+	c06Second      = common.HexToAddress("0x8888888888888888888888888888888888888888")
+	c06SecondTopic = common.HexToHash("0x5ec0")
 )
+
+const c06SecondID = "c06second"
 
 type c06Fork struct {
 	At      int   // fork point = tip - At (clamped above the finalized frontier)
@@ -55,13 +63,14 @@ type c06Case struct {
 	Forks     []c06Fork
 	Grow      []int // blocks appended (with logs) after each fork
 	RestartAt int   // -1 or RPC ordinal at which detector+syncer are stopped and restarted
+	Second    bool  // a second syncer (its own contract, its own store) shares the reorg detector
 }
 
 func c06Gen(rt *rapid.T) c06Case {
 	var c c06Case
 	n := rapid.IntRange(3, 25).Draw(rt, "nBase")
 	for i := 0; i < n; i++ {
-		c.Base = append(c.Base, rapid.SampledFrom([]int{0, 0, 1, 1, 2}).Draw(rt, "logs"))
+		c.Base = append(c.Base, rapid.SampledFrom([]int{0, 0, 1, 1, 2, 3, 3, 4}).Draw(rt, "logs"))
 	}
 	c.FinLag = rapid.IntRange(2, 10).Draw(rt, "finLag")
 	c.Chunk = uint64(rapid.SampledFrom([]int{1, 2, 3, 5, 50}).Draw(rt, "chunk"))
@@ -72,11 +81,12 @@ func c06Gen(rt *rapid.T) c06Case {
 			f.Down, f.PassFin = true, rapid.Bool().Draw(rt, "finalityPassesFork")
 		}
 		for k, m := 0, rapid.IntRange(0, 8).Draw(rt, "suffixLen"); k < m; k++ {
-			f.Suffix = append(f.Suffix, rapid.SampledFrom([]int{0, 1, 1, 2}).Draw(rt, "suffixLogs"))
+			f.Suffix = append(f.Suffix, rapid.SampledFrom([]int{0, 1, 1, 2, 3, 3, 4}).Draw(rt, "suffixLogs"))
 		}
 		c.Forks = append(c.Forks, f)
 		c.Grow = append(c.Grow, rapid.IntRange(0, 3).Draw(rt, "grow"))
 	}
+	c.Second = rapid.IntRange(0, 2).Draw(rt, "secondSyncer") > 0
 	c.RestartAt = -1
 	if rapid.IntRange(0, 3).Draw(rt, "restart") == 0 {
 		c.RestartAt = rapid.IntRange(5, 150).Draw(rt, "restartAt")
@@ -86,13 +96,20 @@ func c06Gen(rt *rapid.T) c06Case {
 
 var c06Seq uint64
 
+// c06Logs: n%3 L1 info logs, plus one log of the second syncer's contract when n >= 3.
 func c06Logs(n int) []types.Log {
 	var out []types.Log
+	if n >= 3 {
+		c06Seq++
+		out = append(out, types.Log{Address: c06Second, Topics: []common.Hash{c06SecondTopic, common.BigToHash(new(big.Int).SetUint64(c06Seq))}, Index: 0})
+		n -= 3
+	}
+	base := len(out)
 	for i := 0; i < n; i++ {
 		c06Seq++
 		mer := common.BigToHash(new(big.Int).SetUint64(c06Seq<<8 | 1))
 		rer := common.BigToHash(new(big.Int).SetUint64(c06Seq<<8 | 2))
-		out = append(out, types.Log{Address: c06GER, Topics: []common.Hash{c06InfoV1, mer, rer}, Index: uint(i)})
+		out = append(out, types.Log{Address: c06GER, Topics: []common.Hash{c06InfoV1, mer, rer}, Index: uint(base + i)})
 	}
 	return out
 }
@@ -113,6 +130,9 @@ func c06Expected(ch *fakechain.Chain) []c06Leaf {
 	for n := uint64(1); n <= ch.LatestLocked(); n++ {
 		h := ch.HeaderLocked(n)
 		for _, l := range ch.LogsLocked(n) {
+			if l.Address != c06GER {
+				continue
+			}
 			lf := c06Leaf{Block: n, MER: l.Topics[1], RER: l.Topics[2], Parent: h.ParentHash, Ts: h.Time}
 			lf.Hash = ref.L1InfoLeaf(ref.GER(lf.MER, lf.RER), lf.Parent, lf.Ts)
 			out = append(out, lf)
@@ -166,15 +186,16 @@ func deliveredBlocks(path string) map[uint64]common.Hash {
 	return out
 }
 
-func reorgEvents(path string) []uint64 {
-	evs, _ := reorgEventsFull(path)
+func reorgEvents(path, sub string) []uint64 {
+	evs, _ := reorgEventsFull(path, sub)
 	return evs
 }
 
-func reorgEventsFull(path string) ([]uint64, []common.Hash) {
+// reorgEventsFull: the recorded rewinds (first block, tracked hash) of one subscriber ("" = all).
+func reorgEventsFull(path, sub string) ([]uint64, []common.Hash) {
 	d := rawDB(path)
 	defer d.Close()
-	rows, err := d.Query("SELECT from_block, tracked_hash FROM reorg_event ORDER BY rowid")
+	rows, err := d.Query("SELECT from_block, tracked_hash FROM reorg_event WHERE subscriber_id = ? OR ? = '' ORDER BY rowid", sub, sub)
 	if err != nil {
 		return nil, nil
 	}
@@ -228,13 +249,100 @@ func c06Diag(storePath, rdPath string, chain *fakechain.Chain) string {
 	return out
 }
 
+// c06Rec is the second subscriber's store (it outlives restarts, like a database file): the blocks it holds.
+type c06Rec struct {
+	mu     sync.Mutex
+	kept   []aggkitsync.Block
+	compat *aggkitsync.RuntimeData
+}
+
+func (r *c06Rec) GetLastProcessedBlock(context.Context) (uint64, error) {
+	r.mu.Lock()
+	defer r.mu.Unlock()
+	if len(r.kept) == 0 {
+		return 0, nil
+	}
+	return r.kept[len(r.kept)-1].Num, nil
+}
+func (r *c06Rec) ProcessBlock(_ context.Context, b aggkitsync.Block) error {
+	r.mu.Lock()
+	defer r.mu.Unlock()
+	r.kept = append(r.kept, b)
+	return nil
+}
+func (r *c06Rec) Reorg(_ context.Context, first uint64) error {
+	r.mu.Lock()
+	defer r.mu.Unlock()
+	for len(r.kept) > 0 && r.kept[len(r.kept)-1].Num >= first {
+		r.kept = r.kept[:len(r.kept)-1]
+	}
+	return nil
+}
+func (r *c06Rec) GetCompatibilityData(context.Context, dbtypes.Querier) (bool, aggkitsync.RuntimeData, error) {
+	r.mu.Lock()
+	defer r.mu.Unlock()
+	if r.compat == nil {
+		return false, aggkitsync.RuntimeData{}, nil
+	}
+	return true, *r.compat, nil
+}
+func (r *c06Rec) SetCompatibilityData(_ context.Context, _ dbtypes.Querier, d aggkitsync.RuntimeData) error {
+	r.mu.Lock()
+	defer r.mu.Unlock()
+	r.compat = &d
+	return nil
+}
+func (r *c06Rec) delivered() map[uint64]common.Hash {
+	r.mu.Lock()
+	defer r.mu.Unlock()
+	out := map[uint64]common.Hash{}
+	for _, b := range r.kept {
+		out[b.Num] = b.Hash
+	}
+	return out
+}
+
+// c06CompareSecond: the second store holds exactly the canonical chain's blocks with a log of its contract (blocks without
+// events that it holds as range markers must be canonical too).
+func c06CompareSecond(r *c06Rec, ch *fakechain.Chain) string {
+	ch.Lock()
+	defer ch.Unlock()
+	r.mu.Lock()
+	defer r.mu.Unlock()
+	have := map[uint64]aggkitsync.Block{}
+	for _, b := range r.kept {
+		if b.Num <= ch.LatestLocked() && b.Hash != (common.Hash{}) && b.Hash != ch.HeaderLocked(b.Num).Hash() {
+			return fmt.Sprintf("second syncer: holds block %d with hash %s, canonical %s", b.Num, b.Hash.Hex()[:10], ch.HeaderLocked(b.Num).Hash().Hex()[:10])
+		}
+		if b.Num > ch.LatestLocked() {
+			return fmt.Sprintf("second syncer: holds block %d beyond the canonical tip %d", b.Num, ch.LatestLocked())
+		}
+		if len(b.Events) > 0 {
+			have[b.Num] = b
+		}
+	}
+	for n := uint64(1); n <= ch.LatestLocked(); n++ {
+		want := 0
+		for _, l := range ch.LogsLocked(n) {
+			if l.Address == c06Second {
+				want++
+			}
+		}
+		if got := len(have[n].Events); got != want {
+			return fmt.Sprintf("second syncer: block %d holds %d events, the canonical chain has %d", n, got, want)
+		}
+	}
+	return ""
+}
+
 type c06Result struct {
-	abandoned  int
-	verdict    string
-	inconcl    string
-	nontrivial bool
-	forksDone  int
-	replacedEv int
+	abandoned      int
+	verdict        string
+	inconcl        string
+	nontrivial     bool
+	forksDone      int
+	replacedEv     int
+	replacedSecond int
 }
 
 func c06Run(c c06Case) (res c06Result) {
@@ -286,6 +394,7 @@ func c06Run(c c06Case) (res c06Result) {
 	defer cleanS()
 	rdPath := storePath + ".rd"
 	var cur *l1infotreesync.L1InfoTreeSync
+	rec2 := &c06Rec{}
 	start := func(ctx context.Context) (chan struct{}, error) {
 		rd, err := reorgdetector.New(chain, reorgdetector.Config{DBPath: rdPath, CheckReorgsInterval: cfgtypes.NewDuration(time.Millisecond), FinalizedBlock: aggkittypes.FinalizedBlock}, reorgdetector.L1)
 		if err != nil {
@@ -300,8 +409,29 @@ func c06Run(c c06Case) (res c06Result) {
 			return nil, err
 		}
 		cur = s
+		var wg sync.WaitGroup
+		wg.Add(1)
+		go func() { s.Start(ctx); wg.Done() }()
+		if c.Second {
+			appender := aggkitsync.LogAppenderMap{c06SecondTopic: func(b *aggkitsync.EVMBlock, l types.Log) error {
+				b.Events = append(b.Events, l.Topics[1])
+				return nil
+			}}
+			rh := &aggkitsync.RetryHandler{RetryAfterErrorPeriod: time.Millisecond, MaxRetryAttemptsAfterError: -1}
+			dl, err := aggkitsync.NewEVMDownloader(c06SecondID, chain, c.Chunk, aggkittypes.LatestBlock, time.Millisecond, appender,
+				[]common.Address{c06Second}, rh, aggkittypes.FinalizedBlock)
+			if err != nil {
+				return nil, err
+			}
+			drv, err := aggkitsync.NewEVMDriver(rd, rec2, dl, c06SecondID, 100, rh, false)
+			if err != nil {
+				return nil, err
+			}
+			wg.Add(1)
+			go func() { drv.Sync(ctx); wg.Done() }()
+		}
 		done := make(chan struct{})
-		go func() { s.Start(ctx); close(done) }()
+		go func() { wg.Wait(); close(done) }()
 		return done, nil
 	}
 	ctx, cancel := context.WithCancel(context.Background())
@@ -444,8 +574,19 @@ func c06Run(c c06Case) (res c06Result) {
 			old[n] = chain.HeaderLocked(n).Hash()
 			replacedHashes[old[n]] = true
 		}
-		delivered := deliveredBlocks(storePath)
-		eventsBefore := len(reorgEvents(rdPath))
+		type subState struct {
+			id           string
+			delivered    map[uint64]common.Hash
+			eventsBefore int
+			first, last  uint64 // first / last delivered block that this fork replaces (0: none)
+		}
+		subs := []*subState{{id: "l1InfoTreeSyncer", delivered: deliveredBlocks(storePath)}}
+		if c.Second {
+			subs = append(subs, &subState{id: c06SecondID, delivered: rec2.delivered()})
+		}
+		for _, sb := range subs {
+			sb.eventsBefore = len(reorgEvents(rdPath, sb.id))
+		}
 		var suffix [][]types.Log
 		for _, n := range f.Suffix {
 			suffix = append(suffix, c06Logs(n))
@@ -458,29 +599,34 @@ func c06Run(c c06Case) (res c06Result) {
 		chain.SetPointersLocked(newTip, newTip, fin)
 		chain.Unlock()
 		res.forksDone++
-		firstReplaced, lastReplaced := uint64(0), uint64(0)
-		for n, h := range delivered {
-			if oh, ok := old[n]; ok && oh == h {
-				if firstReplaced == 0 || n < firstReplaced {
-					firstReplaced = n
+		for _, sb := range subs {
+			for n, h := range sb.delivered {
+				if oh, ok := old[n]; ok && oh == h {
+					if sb.first == 0 || n < sb.first {
+						sb.first = n
+					}
+					if n > sb.last {
+						sb.last = n
+					}
 				}
-				if n > lastReplaced {
-					lastReplaced = n
+			}
+			if sb.first != 0 {
+				res.replacedEv++
+				res.nontrivial = true
+				if sb.id == c06SecondID {
+					res.replacedSecond++
 				}
 			}
 		}
-		if firstReplaced != 0 {
-			res.replacedEv++
-			res.nontrivial = true
-		}
-		// the detector compares tracked blocks with the headers the chain serves now: while the new fork is shorter than a
-		// replaced delivered block the node cannot know about the reorg yet (the final convergence check still applies)
-		if isolated && firstReplaced != 0 && newTip >= lastReplaced {
-			// (2) the node must be rewound at or before the first replaced delivered block
-			// wait until the node has had the chance to notice (fresh polls and detector sweeps after the fork) and is idle
-			// again; a missing rewind is only reported if it stays missing for 3 s of idleness
-			// a detector sweep that straddles the fork sees old headers for the first blocks and new ones for the rest, and
-			// reports the rest first; what matters is that the node ends up rewound to at or before the first replaced
+		for _, sb := range subs {
+			// the detector compares tracked blocks with the headers the chain serves now: while the new fork is shorter than a
+			// replaced delivered block the node cannot know about the reorg yet (the final convergence check still applies)
+			if !(isolated && sb.first != 0 && newTip >= sb.last) {
+				continue
+			}
+			// (2) the syncer must be rewound at or before the first replaced delivered block.
+			// A detector sweep that straddles the fork sees old headers for the first blocks and new ones for the rest, and
+			// reports the rest first; what matters is that the syncer ends up rewound to at or before the first replaced
 			// block. A missing (or too shallow) rewind is only reported if it stays so for 3 s of idleness.
 			var evs []uint64
 			lowest := uint64(0)
@@ -496,16 +642,16 @@ func c06Run(c c06Case) (res c06Result) {
 					}
 					return
 				}
-				evs = reorgEvents(rdPath)
+				evs = reorgEvents(rdPath, sb.id)
 				lowest = 0
-				if len(evs) > eventsBefore {
-					lowest = evs[eventsBefore]
-					for _, e := range evs[eventsBefore:] {
+				if len(evs) > sb.eventsBefore {
+					lowest = evs[sb.eventsBefore]
+					for _, e := range evs[sb.eventsBefore:] {
 						if e < lowest {
 							lowest = e
 						}
 					}
-					if lowest <= firstReplaced {
+					if lowest <= sb.first {
 						break
 					}
 				}
@@ -516,17 +662,17 @@ func c06Run(c c06Case) (res c06Result) {
 					break
 				}
 			}
-			if len(evs) <= eventsBefore {
-				res.verdict = fmt.Sprintf("fork #%d replaced delivered block %d; the node stayed idle for 3 s of polls and detector sweeps but no rewind was recorded", i+1, firstReplaced) + c06Diag(storePath, rdPath, chain)
+			if len(evs) <= sb.eventsBefore {
+				res.verdict = fmt.Sprintf("fork #%d replaced block %d delivered to subscriber %s; the node stayed idle for 3 s of polls and detector sweeps but no rewind was recorded", i+1, sb.first, sb.id) + c06Diag(storePath, rdPath, chain)
 				return
 			}
-			if lowest > firstReplaced {
-				res.verdict = fmt.Sprintf("fork #%d replaced delivered block %d but the node was rewound to block %d only (rewinds since the fork: %v) and stayed idle for 3 s", i+1, firstReplaced, lowest, evs[eventsBefore:]) + c06Diag(storePath, rdPath, chain)
+			if lowest > sb.first {
+				res.verdict = fmt.Sprintf("fork #%d replaced block %d delivered to subscriber %s but it was rewound to block %d only (rewinds since the fork: %v) and stayed idle for 3 s", i+1, sb.first, sb.id, lowest, evs[sb.eventsBefore:]) + c06Diag(storePath, rdPath, chain)
 				return
 			}
 		}
 		for k := 0; k < c.Grow[i]; k++ {
-			chain.Extend(c06Logs(int(c06Seq % 2)))
+			chain.Extend(c06Logs(int(c06Seq % 5)))
 		}
 		// a canonical chain keeps growing: the new fork soon becomes longer than the one it replaced
 		for chain.Tip() <= maxTip {
@@ -569,6 +715,9 @@ func c06Run(c c06Case) (res c06Result) {
 		}
 		if idle() {
 			diff = c06Compare(cur, c06Expected(chain))
+			if diff == "" && c.Second {
+				diff = c06CompareSecond(rec2, chain)
+			}
 			if diff == "" {
 				break
 			}
@@ -589,21 +738,23 @@ func c06Run(c c06Case) (res c06Result) {
 		time.Sleep(500 * time.Microsecond)
 	}
 	// (3) no spurious rewind: every recorded rewind is for a tracked block whose hash a fork really replaced
-	evs, tracked := reorgEventsFull(rdPath)
-	seenTracked := map[common.Hash]int{}
 	anyDown := false // a stop between the notification and the removal of the tracked range legitimately repeats the rewind
 	for _, f := range c.Forks {
 		anyDown = anyDown || f.Down
 	}
-	for k, e := range evs {
-		seenTracked[tracked[k]]++
-		if seenTracked[tracked[k]] > 1 && c.RestartAt < 0 && !anyDown {
-			res.verdict = fmt.Sprintf("the node was rewound to block %d more than once for the same replaced block version %s: the second rewind had nothing new to undo", e, tracked[k].Hex()[:12])
-			return
-		}
-		if !replacedHashes[tracked[k]] {
-			res.verdict = fmt.Sprintf("a rewind to block %d was recorded for tracked hash %s, but no fork ever replaced a block with that hash", e, tracked[k].Hex()[:12])
-			return
+	for _, sub := range []string{"l1InfoTreeSyncer", c06SecondID} {
+		evs, tracked := reorgEventsFull(rdPath, sub)
+		seenTracked := map[common.Hash]int{}
+		for k, e := range evs {
+			seenTracked[tracked[k]]++
+			if seenTracked[tracked[k]] > 1 && c.RestartAt < 0 && !anyDown {
+				res.verdict = fmt.Sprintf("subscriber %s was rewound to block %d more than once for the same replaced block version %s: the second rewind had nothing new to undo", sub, e, tracked[k].Hex()[:12])
+				return
+			}
+			if !replacedHashes[tracked[k]] {
+				res.verdict = fmt.Sprintf("a rewind of subscriber %s to block %d was recorded for tracked hash %s, but no fork ever replaced a block with that hash", sub, e, tracked[k].Hex()[:12])
+				return
+			}
 		}
 	}
 	return
@@ -622,6 +773,10 @@ func TestC06(t *testing.T) {
 		rec.Case(res.nontrivial, fmt.Sprintf("%+v", c))
 		rec.ClassN("forks_applied", res.forksDone)
 		rec.ClassN("forks_replacing_delivered_blocks", res.replacedEv)
+		rec.ClassN("forks_replacing_blocks_of_the_second_syncer", res.replacedSecond)
+		if c.Second {
+			rec.Class("with_second_syncer_on_the_same_detector")
+		}
 		if c.RestartAt >= 0 {
 			rec.Class("with_restart")
 		}
